@@ -120,6 +120,40 @@ func init() {
 		l.p("/-- the only `setOffset` call of the worker is in `waitConfirm`, inside the `case w.confCh <- struct{}{}` -/")
 		l.p("def setOffsetOnlyAfterConfirm : Bool := %s", leanBool(setInConfCase && !setElsewhere))
 
+		// --- fix 0585c11: the event handed to the consumer gets its own copy of the record slice ------------------
+		ownSlice := false
+		if sos := funcDecl(wf, "worker", "sendOrSleep"); sos == nil {
+			problem("scanner.worker.sendOrSleep not found")
+		} else {
+			found := false
+			ast.Inspect(sos.Body, func(n ast.Node) bool {
+				c, ok := n.(*ast.CallExpr)
+				if !ok {
+					return true
+				}
+				se, ok := c.Fun.(*ast.SelectorExpr)
+				if !ok || se.Sel.Name != "NewEvent" || len(c.Args) < 2 {
+					return true
+				}
+				found = true
+				// the records argument must be a fresh slice: append(<not recs>, recs...) — not the worker's own `recs`
+				if ap, ok := c.Args[1].(*ast.CallExpr); ok {
+					if id, ok := ap.Fun.(*ast.Ident); ok && id.Name == "append" && len(ap.Args) == 2 && ap.Ellipsis.IsValid() {
+						if first, isId := ap.Args[0].(*ast.Ident); !isId || first.Name != "recs" {
+							ownSlice = true
+						}
+					}
+				}
+				return true
+			})
+			if !found {
+				problem("scanner.worker.sendOrSleep: model.NewEvent call not found")
+			}
+		}
+		l.p("/-- `sendOrSleep` hands `model.NewEvent` a fresh copy of the record slice (`append(<new>, recs...)`), not the")
+		l.p("worker's own `recs`, which `run` clears and reuses (fix 0585c11) -/")
+		l.p("def eventGetsOwnRecordSlice : Bool := %s", leanBool(ownSlice))
+
 		// --- parsers: pos += int64(len(line)) --------------------------------------------------------------
 		posOK := true
 		for _, pf := range [][2]string{{"pkg/scanner/parser/pure_parser.go", "pureParser"}, {"pkg/scanner/parser/line_parser.go", "lineParser"},
